@@ -159,6 +159,11 @@ class Engine:
     def lookup_global(self, name, module, st):
         if name == "ghost":
             return VGhostNS()
+        nd = self.hooks.get("names_dynamic")
+        if nd is not None:
+            v = nd(name, st)
+            if v is not None:
+                return v
         if name in self.spec_funcs:
             return VFunc("spec", name=name, spec=self.spec_funcs[name])
         extra = self.hooks.get("names", {})
@@ -366,7 +371,7 @@ class Engine:
             if isinstance(v, Raised):
                 out.append((s, v))
             elif isinstance(n.op, ast.Not):
-                out.append((s, VBool(simp(z3.Not(truth(v))))))
+                out.append((s, VBool(simp(z3.Not(truth(v, s))))))
             elif isinstance(n.op, ast.USub):
                 out.append((s, VReal(-v.e) if isinstance(v, VReal) else VInt(simp(-as_int(v)))))
             elif isinstance(n.op, ast.UAdd):
@@ -386,7 +391,7 @@ class Engine:
                     res.append((s1, v))
                     continue
                 pure = self.is_pure(n.values[i + 1:])
-                t = simp(truth(v))
+                t = simp(truth(v, s1))
                 if pure and (z3.is_true(t) or z3.is_false(t)) is False:
                     # merge instead of forking when the rest has no side effects and evaluates on one path
                     rest = self.try_pure_eval(n.values[i + 1:], n.op, s1)
@@ -434,7 +439,7 @@ class Engine:
             if isinstance(c, Raised):
                 out.append((s, c))
                 continue
-            t = simp(truth(c))
+            t = simp(truth(c, s))
             if not (z3.is_true(t) or z3.is_false(t)) and self.is_pure([n.body, n.orelse]):
                 a = self.try_pure_eval([n.body], None, s)
                 b = self.try_pure_eval([n.orelse], None, s)
@@ -451,17 +456,41 @@ class Engine:
             if isinstance(vals, Raised):
                 out.append((s, vals))
                 continue
-            conj = []
-            for op, a, b in zip(n.ops, vals, vals[1:]):
-                if isinstance(op, (ast.In, ast.NotIn)):
-                    c = self.builtin_mod.contains(self, s, b, a)
-                    conj.append(c if isinstance(op, ast.In) else z3.Not(c))
-                else:
-                    conj.append(self.compare_vals(op, a, b, s))
-            out.append((s, VBool(simp(z3.And(*conj)) if len(conj) > 1 else simp(conj[0]))))
+            ordering = any(isinstance(op, (ast.Lt, ast.LtE, ast.Gt, ast.GtE)) for op in n.ops)
+            combos = [(s, vals)]
+            if ordering and any(isinstance(v, VUnion) for v in vals):
+                combos = []
+                def expand(i, s_, acc):
+                    if i == len(vals):
+                        combos.append((s_, acc))
+                        return
+                    for s2, v2 in self.split_union(vals[i], s_):
+                        expand(i + 1, s2, acc + [v2])
+                expand(0, s, [])
+            for s1, vs in combos:
+                if ordering and any(isinstance(v, VNoneT) for v in vs):
+                    out.append((s1, self.raise_py(s1, TypeError, "ordering comparison with None")))
+                    continue
+                conj = []
+                for op, a, b in zip(n.ops, vs, vs[1:]):
+                    if isinstance(op, (ast.In, ast.NotIn)):
+                        c = self.builtin_mod.contains(self, s1, b, a)
+                        conj.append(c if isinstance(op, ast.In) else z3.Not(c))
+                    else:
+                        conj.append(self.compare_vals(op, a, b, s1))
+                out.append((s1, VBool(simp(z3.And(*conj)) if len(conj) > 1 else simp(conj[0]))))
         return out
 
     def compare_vals(self, op, a, b, st):
+        import dataclasses as _dc
+        if isinstance(a, VRef) and isinstance(b, VRef) and not isinstance(op, (ast.Is, ast.IsNot)):
+            oa, ob = st.heap[a.oid], st.heap[b.oid]
+            if oa.kind == "inst" and ob.kind == "inst" and oa.cls is ob.cls and isinstance(oa.cls, type) and _dc.is_dataclass(oa.cls):
+                params = getattr(oa.cls, "__dataclass_params__", None)
+                names = [f.name for f in _dc.fields(oa.cls) if f.compare]
+                if isinstance(op, (ast.Eq, ast.NotEq)) or (params is not None and params.order):
+                    self.assumptions_used.add("A-LIB(dataclasses): generated __eq__/ordering compare the field tuples")
+                    return compare(op, VTuple([self.devalue(oa.f[n], st) for n in names]), VTuple([self.devalue(ob.f[n], st) for n in names]))
         # heap lists / bufs compare structurally
         a2, b2 = self.devalue(a, st), self.devalue(b, st)
         if isinstance(a2, VSeq) and isinstance(b2, VTuple):
@@ -645,6 +674,8 @@ class Engine:
     def call_py(self, fv: VFunc, args, kwargs, st: State):
         name = self.full_name(fv)
         c = self.contracts.get(name)
+        if c is not None and getattr(c, "model", None) is not None and self.current_target != name:
+            return c.model(self, st, fv, args, kwargs)
         if c is not None and not (self.current_target == name and not c.recursive_ok):
             return self.contract_mod.apply_contract(self, c, fv, args, kwargs, st)
         if c is not None or name in self.inline or fv.qualname == "<lambda>" or fv.closure is not None \
@@ -959,7 +990,7 @@ class Engine:
             if isinstance(c, Raised):
                 out.append((s, c))
                 continue
-            t = simp(truth(c))
+            t = simp(truth(c, s))
             branches = self.fork_bool(t, s, f"if@{getattr(n, 'lineno', '?')}")
             if len(branches) == 2:
                 (sa, _), (sb, _) = branches
